@@ -81,6 +81,24 @@ void run_case(Tape& t, Ctx& ctx, const char* tname) {
     for (int k = 0; okc && k < ncoef; ++k) for (int d = 0; d < DIM; ++d) if (!same_val(blk(k, d), m.c(s, k, d))) okc = false;
     VCHECK(ctx, okc, "segment-accessors", "Segment::getCoeffs does not echo segment " << s);
   }
+  {
+    // every way of walking the pieces visits piece i as the i-th one: prefix and postfix increment (the VALUE of `it++` is the
+    // old position), range-for, prefix and postfix decrement
+    int i = 0; bool ok = true; const char* how = "";
+    for (auto it = pp.begin(); it != pp.end(); ++it, ++i) if ((*it).index() != i) { ok = false; how = "prefix ++"; }
+    if (i != nseg) { ok = false; how = "prefix ++ (count)"; }
+    i = 0;
+    for (auto it = pp.begin(); it != pp.end(); ++i) { auto sgi = *it++; if (sgi.index() != i) { ok = false; how = "value of postfix ++"; } }
+    if (i != nseg) { ok = false; how = "postfix ++ (count)"; }
+    i = 0;
+    for (auto sgi : pp) { if (sgi.index() != i) { ok = false; how = "range-for"; } ++i; }
+    if (i != nseg) { ok = false; how = "range-for (count)"; }
+    i = nseg;
+    for (auto it = pp.end(); it != pp.begin();) { --it; --i; if (it->index() != i) { ok = false; how = "prefix --"; } }
+    i = nseg - 1;
+    for (auto it = pp.begin() + (nseg - 1);; --i) { auto old = it--; if ((*old).index() != i) { ok = false; how = "value of postfix --"; } if (i == 0) break; }
+    VCHECK(ctx, ok, "segment-iteration", "walking the pieces by " << how << " does not visit piece i as the i-th one (" << nseg << " pieces)");
+  }
 
   // ---- query history
   int Q = t.rangez(1, 24, 6);
